@@ -32,11 +32,12 @@ REQUIRED = {"hist.observable_result": {"quick": 50000, "thorough": 2000000}, "hi
             "hist.pop_shrinks_stack_even_when_raising": {"quick": 10000, "thorough": 400000}, "hist.pop_raises_iff_cleanup_raised": {"quick": 10000, "thorough": 400000},
             "run.visibility": {"quick": 3000, "thorough": 150000}, "run.cleanups_lifo_exactly_once_at_scope_end": {"quick": 800, "thorough": 40000},
             "run.raising_cleanup_fails_owner_and_run": {"quick": 60, "thorough": 3000}, "run.execute_steps_restores_text_table": {"quick": 30, "thorough": 1500},
-            "hist.mode_restored": {"quick": 50, "thorough": 2000},
+            "hist.mode_restored": {"quick": 50, "thorough": 2000}, "hist.scoped_layer_ends_with_its_block": {"quick": 500, "thorough": 20000},
             "tworuns.testrun_scope_of_run1_is_gone": {"quick": 40, "thorough": 1500}}
 REQUIRED_SEEN = {"cleanup_registered_from": ["before_all", "before_feature", "before_rule", "before_scenario", "before_step", "step", "after_step",
                                              "after_scenario", "before_tag"],
-                 "cleanup_layer": ["current", "feature", "scenario", "testrun"]}
+                 "cleanup_layer": ["current", "feature", "scenario", "testrun"],
+                 "scoped_block_left_by": ["normal", "RuntimeError", "KeyboardInterrupt", "SystemExit"]}
 EXHAUSTIVE = True
 EXHAUSTIVE_SCOPE = "all operation histories up to the length bound over the 16-operation alphabet"
 NSHARDS = {"quick": 16, "thorough": 16}
@@ -319,6 +320,35 @@ def run_history(lab, mon, ops, rng=None, label="exhaustive"):
             except ValueError:
                 got = "ValueError"
             mon.check("hist.observable_result", got == ("ValueError" if with_bad else ["one", "two"]), lambda: W(op="composite", got=got, with_bad=with_bad))
+        elif op in ("scoped_ok", "scoped_exc", "scoped_ki", "scoped_exit"):
+            # behave.runner.scoped_context_layer (documented for fixtures used inside a temporary scope): however the block
+            # is left -- normally, by an exception, by KeyboardInterrupt / SystemExit -- the scope ends there: its attributes
+            # are gone, its cleanups have run exactly once, the stack is as deep as before
+            from behave.runner import scoped_context_layer
+            leave = {"scoped_ok": None, "scoped_exc": RuntimeError, "scoped_ki": KeyboardInterrupt, "scoped_exit": SystemExit}[op]
+            cid, fn = make_cleanup(False)
+            n0 = len(ctx._stack)
+            del log[:]
+            val[0] += 1
+            raised = None
+            try:
+                with scoped_context_layer(ctx, rng.choice([None, "scenario", "tmp"]) if rng is not None else None):
+                    ctx.scoped_value = val[0]
+                    ctx.add_cleanup(fn)
+                    if leave is not None:
+                        raise leave("leaving the block")
+            except BaseException as ex:
+                raised = ex
+            want_attr = model.get("scoped_value")
+            got_attr = getattr(ctx, "scoped_value", MISSING)
+            mon.check("hist.scoped_layer_ends_with_its_block",
+                      len(ctx._stack) == n0 and log == [cid] and (got_attr is want_attr or got_attr == want_attr) and
+                      ((raised is None) if leave is None else isinstance(raised, leave)),
+                      lambda: W(op=op, depth_before=n0, depth_after=len(ctx._stack), cleanups_run=list(log), want_cleanups=[cid],
+                                scoped_value_after=repr(got_attr), raised=repr(raised)))
+            mon.seen("scoped_block_left_by", "normal" if leave is None else leave.__name__)
+            if len(ctx._stack) != n0:
+                return      # the lock-step model cannot follow a corrupted stack
         elif op == "user_mode_raise":
             before = ctx._mode
             try:
@@ -697,7 +727,7 @@ def run(spec, mon):
                     sink.seek(0)
                     sink.truncate()
         mon.count("exhaustive_histories_enumerated", idx if shard == 0 else 0)
-        ALL = OPS + ["set_none_a", "set_none_a", "create", "cl_nesting", "cl_nesting", "cl_same", "cl_same", "cl_same_layer_f", "cl_same_layer_s", "fx_nested", "push_r", "cl_layer_s", "cl_layer_t", "cl_layer_x", "fx_plain", "fx_composite", "user_mode_raise", "create",
+        ALL = OPS + ["set_none_a", "set_none_a", "create", "cl_nesting", "cl_nesting", "cl_same", "cl_same", "cl_same_layer_f", "cl_same_layer_s", "fx_nested", "push_r", "cl_layer_s", "cl_layer_t", "cl_layer_x", "fx_plain", "fx_composite", "user_mode_raise", "create", "scoped_ok", "scoped_exc", "scoped_ki", "scoped_exit",
                      ("set", "c"), ("get", "c"), ("del", "b"), ("in", "b"), ("root", "b"), ("get", "fx_value"), ("assign", "b")]
         for i in range(150 if tier == "quick" else 8000):
             ops = [rng.choice(ALL) for _ in range(rng.randint(5, 40))]
